@@ -17,7 +17,7 @@ THEOREMS = ["C13_inverse", "C13_registry_fuel", "C13_call_nodes_sound", "C13_no_
             "C13_node_limit", "C13_inverse_graph", "C13_calledby_is_inverse", "C13_forward_declared",
             "C13_edges_declared", "C13_inverse_declared", "C13_no_late_nodes", "C13_inverse_complete",
             "C13_graph_false"]
-COUNTS = {"intended_relations": 0, "intended_arrows_checked": 0, "spec_from_generator": 0}
+COUNTS = {"intended_relations": 0, "intended_arrows_checked": 0, "spec_from_generator": 0, "declared_call_graph_roots": 0}
 # the six defects repaired in /repo (known_findings.d/C13.json "fixed"): their witnesses are replayed on every
 # run and a defect that returns is a failing input
 REGRESSIONS = [("graph-false-neighbour", "c13_graph_false"), ("lazy-inverse", "c13_lazy_inverse"),
@@ -27,6 +27,11 @@ REGRESSIONS = [("graph-false-neighbour", "c13_graph_false"), ("lazy-inverse", "c
                ("external-procedure-call-unresolved", "c13_external_procedure_calls")]
 
 CORPUS = [
+    # project-level proc_internals off, one procedure switches it on: its internal procedures are displayed
+    ({"src/t.f90": "module m\ncontains\nsubroutine q\nend subroutine\nsubroutine host\n!! proc_internals: true\n"
+                   "call inner\ncontains\n  subroutine inner\n    call q\n  end subroutine\n  subroutine lone\n"
+                   "    call q\n  end subroutine\nend subroutine\nsubroutine plain\ncontains\n  subroutine hidden_in\n"
+                   "    call q\n  end subroutine\nend subroutine\nend module m\n"}, {"proc_internals": False}),
     # (files, settings) — hand-written projects that once mattered
     ({"src/t.f90": "module a\nend module a\nmodule b\n!! graph: false\nuse a\nend module b\nmodule c\nuse b\nuse extmod\n"
                    "contains\nsubroutine s1\ncall s2\ncall unknown_thing\nend subroutine\nsubroutine s2\ncall s1\n"
@@ -85,7 +90,7 @@ def project_case(rng, files, st, nruns, project=None, intended=None, limits=None
             if k + 1 < nruns:
                 relimit(rng, world, limits[k] if limits else None)
     labels, lbad = GI.label_table(runs)
-    spec, sbad = spec_term(world, allv, proj)
+    spec, sbad = spec_term(world, allv, proj, st)
     term = ("(" + wterm + ", " + GI.nats(regids) + ", " + GI.nats(nograph) + ", " + coq_bool(show) + ", " +
             labels + ", " + coq_list(coq_list(GI.graph_term(r) for r in recs) for recs in runs) + ", " + spec + ")")
     problems = [x for i in infos for x in i] + lbad + sbad
@@ -98,14 +103,21 @@ def project_case(rng, files, st, nruns, project=None, intended=None, limits=None
     return term, summary, problems, runs
 
 
-def spec_term(world, allv, proj):
+def spec_term(world, allv, proj, st=None):
     """the Spec side from the generator: Some (world with the declared relation, entities of the registration
     lists without graph: false, entities with graph: false) for a strict generated project, else None"""
     if proj is None or not proj.get("strict"):
         return "None", []
-    rel, ng_keys = GG.declared(proj)
-    ents, keyid = world.gen_world(rel)
+    rel, ng_keys, root_keys = GG.declared(proj, st)
+    ents, keyid = world.gen_world(rel, force=root_keys)
     bad = []
+    # displayed-ness of internal procedures: the generator's rule against FORD's flag
+    for k, d in rel.items():
+        if "visible" in d and k in keyid and keyid[k] in world.ents:
+            fv = world.ents[keyid[k]].get("visible")
+            if fv is not None and bool(fv) != bool(d["visible"]):
+                bad.append(f"internal procedure {k[1]}: displayed according to the source metadata = {d['visible']}, "
+                           f"FORD's visible = {fv}")
     allids = [world.node(r, "KMod") for r in allv]
     top = max(world.ents, default=0)          # ids above are entities FORD has no object for: never in a graph
     ng = sorted(keyid[k] for k in ng_keys if k in keyid and keyid[k] <= top)
@@ -115,7 +127,9 @@ def spec_term(world, allv, proj):
     # what was handed to GraphData.register (which entities are documented is not a relation)
     sregs = list(world.regids)
     COUNTS["spec_from_generator"] += 1
-    return f"Some ({world.term(ents)}, {GI.nats(sregs)}, {GI.nats(ng)})", bad
+    roots = sorted(keyid[k] for k in root_keys)
+    COUNTS["declared_call_graph_roots"] += len(roots)
+    return f"Some ({world.term(ents)}, {GI.nats(sregs)}, {GI.nats(ng)}, {GI.nats(roots)})", bad
 
 
 def python_checks(project, gm, log, recs, world):
@@ -142,6 +156,22 @@ def python_checks(project, gm, log, recs, world):
     for a in ("usegraph", "typegraph", "callgraph", "filegraph"):
         if id(getattr(gm, a, None)) not in made:
             bad.append(f"project-wide {a} missing")
+    # every displayed internal procedure of a procedure that draws graphs is expanded by the project-wide call
+    # graph (displayed = FORD's own flag, set by prune() from the per-entity or project-level proc_internals)
+    cg = getattr(gm, "callgraph", None)
+    if cg is not None and id(cg) in made:
+        root_idents = {n.ident for n in cg.root}
+
+        def internals(o):
+            for q in list(getattr(o, "subroutines", []) or []) + list(getattr(o, "functions", []) or []):
+                yield q
+                yield from internals(q)
+        for it in regs:
+            if world.kind_of(it) == "KProc":
+                for q in internals(it):
+                    if getattr(q, "visible", False) and q.meta.graph and \
+                            f"{q.get_dir() or 'none'}~{q.ident}" not in root_idents:
+                        bad.append(f"call graph: displayed internal procedure {q.name} of {it.name} is not expanded")
     return bad
 
 
@@ -187,12 +217,14 @@ def handle(chk, cases, res):
         if code & 2 or code >> 2:
             chk.violation("failing-input", {"what": "a graph built by FORD violates the property (see detail)",
                                             "files": meta["files"], "settings": meta["settings"], "code": code,
-                                            "nruns": meta["nruns"], "rngstate": meta.get("seed")}, True)
+                                            "nruns": meta["nruns"], "rngstate": meta.get("seed"),
+                                            "limits": meta.get("limits")}, True)
         elif code & 1:
             chk.violation("broken-correspondence", {"what": "Coq graph model and ford.graphs disagree",
                                                     "files": meta["files"], "settings": meta["settings"],
                                                     "code": code, "nruns": meta["nruns"],
-                                                    "rngstate": meta.get("seed")}, False)
+                                                    "rngstate": meta.get("seed"), "limits": meta.get("limits")},
+                          False)
 
 
 def add_case(chk, cases, rng, files, st, nruns, tag, intended=None, limits=None, proj=None):
@@ -214,7 +246,7 @@ def add_case(chk, cases, rng, files, st, nruns, tag, intended=None, limits=None,
         chk.extra["totals"][k] += summary[k]
     for pbl in problems[:3]:
         chk.violation("failing-input", {"what": pbl, "files": files, "settings": st}, True)
-    cases.append((term, dict(files=files, settings=st, summary=summary, nruns=nruns, seed=seed)))
+    cases.append((term, dict(files=files, settings=st, summary=summary, nruns=nruns, seed=seed, limits=limits)))
 
 
 def exhaustive(chk, cases, rng, kprocs, kmods):
@@ -328,7 +360,7 @@ def end_to_end(chk, rng, nproj):
             labels, lbad = GI.label_table([recs])
             for pbl in lbad[:2]:
                 chk.violation("failing-input", {"what": pbl, "files": files, "options": opts}, True)
-            spec, sbad = spec_term(world, allv, proj)
+            spec, sbad = spec_term(world, allv, proj, st)
             for pbl in sbad[:2]:
                 chk.violation("failing-input", {"what": pbl, "files": files, "options": opts}, True)
             term = ("(" + world.term() + ", " + GI.nats([world.node(r, "KMod") for r in regs]) + ", " +
@@ -398,7 +430,8 @@ def replay(chk, rep):
         if k in st and isinstance(st[k], str):
             st[k] = st[k] == "true"
     sub = random.Random(rep.get("rngstate", 0))
-    term, summary, problems, runs = project_case(sub, rep["files"], st, rep.get("nruns", 1))
+    lim = [tuple(x) for x in rep["limits"]] if rep.get("limits") else None
+    term, summary, problems, runs = project_case(sub, rep["files"], st, rep.get("nruns", 1), limits=lim)
     print("summary:", summary)
     for pbl in problems:
         print("python check:", pbl)
